@@ -11,8 +11,8 @@ Clauses (each one is a sentence of the property statement):
   equivalent-tree structural walk: kind, name, line span, docstring (full form: its parsed sections too), labels, parameters,
                   returns, decorators, bases, attribute value/annotation, alias target_path, module filepath, member order;
                   expressions compared by str()
-  names-resolve   every ExprName of the flat iteration of every expression has the same canonical_path before and
-                  after; same for the canonical_path of keyword arguments (`ExprKeyword`)
+  names-resolve   every ExprName of the flat iteration of every expression (roots and the tails of dotted chains) has the same
+                  canonical_path and the same path before and after; same for the canonical_path of keyword arguments
   minimal-is-enough  the tree reloaded from the minimal dump has the original's full dump (no docstring parser)
   cli             `griffe dump` (in-process griffe.main, stdout / -o file / -o '{package}.json'; each package requested by
                   name, relative path, ./relative/path/, absolute path or dotted sub-module) emits, per requested
@@ -134,6 +134,13 @@ def _expr_nodes(expr):
             stack.extend(e)
 
 
+def _path(node) -> str:
+    try:
+        return node.path
+    except Exception as exc:  # noqa: BLE001
+        return f"<raises {type(exc).__name__}>"
+
+
 def _canon(node) -> str:
     try:
         return node.canonical_path
@@ -208,9 +215,11 @@ def _expr(e):
         for (c, f), (default, _kinds) in table.items():
             if c == cname:
                 _FIELDS_SEEN.add((c, f, _value_kind(getattr(node, f), default)))
-    names = [f"{x.name}->{_canon(x)}" for x in e.iterate(flat=True) if isinstance(x, ExprName)]
+    flat = [x for x in e.iterate(flat=True) if isinstance(x, ExprName)]  # roots and attribute tails alike
+    names = [f"{x.name}->{_canon(x)}" for x in flat]
+    paths = [f"{x.name}->{_path(x)}" for x in flat]
     kws = sorted(f"{x.name}=->{_canon(x)}" for x in _expr_nodes(e) if isinstance(x, ExprKeyword))
-    return {"str": str(e), "names": names, "keywords": kws}
+    return {"str": str(e), "names": names, "paths": paths, "keywords": kws}
 
 
 def _doc(d, parsed: bool = False):
@@ -506,7 +515,7 @@ def _split(summary, keep_names: bool):
     if isinstance(summary, dict):
         if "str" in summary and ("names" in summary or len(summary) == 1):
             if keep_names:
-                return {"names": summary.get("names", []), "keywords": summary.get("keywords", [])}
+                return {"names": summary.get("names", []), "paths": summary.get("paths", []), "keywords": summary.get("keywords", [])}
             return {"str": summary["str"]}
         return {k: _split(v, keep_names) for k, v in summary.items()}
     if isinstance(summary, list):
@@ -550,6 +559,8 @@ def _all_name_diffs(a, b, path=(), where=()):
         if "names" in a and "names" in b and isinstance(a["names"], list):
             if a["names"] != b["names"]:
                 yield (*path, "names"), (*where, "names"), a["names"], b["names"]
+            if a.get("paths") != b.get("paths"):
+                yield (*path, "paths"), (*where, "paths"), a.get("paths"), b.get("paths")
             if a.get("keywords") != b.get("keywords"):
                 yield (*path, "keywords"), (*where, "keywords"), a.get("keywords"), b.get("keywords")
             return
